@@ -11,7 +11,7 @@ from vlib.vtsched import Inconclusive, VTModel, clock_of, enc_abs, enc_rel, esca
 PROPERTY_ID = "C28"
 LEVEL = "exploration"
 RULE = (
-    "Generated command lists (1..25 quick / 1..60 thorough) executed in lock-step on the real scheduler "
+    "Generated command lists (1..25 quick / 1..60 thorough commands, decoded from a generated list of small integers) executed in lock-step on the real scheduler "
     "(VirtualTimeScheduler(0) with ms-granular float/int/timedelta/datetime arguments, TestScheduler with integer ticks "
     "given as int/float/timedelta/datetime, HistoricalScheduler with datetime/timedelta/float arguments and an optional "
     "non-epoch initial clock) and on an explicit model (priority list ordered by (due, insertion seq) + clock). Commands: "
@@ -23,7 +23,7 @@ RULE = (
     "invocation = max(due, previous clock); cancelled never run; advance_* ran exactly the due set), the clock equals the "
     "model's (target after advance_*/sleep), every observed clock value is >= the previous one, and "
     "ArgumentOutOfRangeException is raised exactly for backwards moves, changing nothing. Cases reaching 90 dequeues at "
-    "one clock value are discarded. Non-trivial: >=2 run actions share a due time, or an action scheduled/cancelled "
+    "one clock value are discarded. Check 'long_start': 30..90 groups of 1..6 actions tied at one instant each (some scheduling a child at the current time), 1..3 units apart, optionally made partly past-due by a sleep or split over two start() runs - far more than 100 tie/past-due dequeues in one start() without ever 90 at one instant (same oracle; non-trivial there: > 100 such dequeues in one start()). Non-trivial: >=2 run actions share a due time, or an action scheduled/cancelled "
     "another from inside its body. Distinct = distinct case JSON."
 )
 ASSUMPTIONS = [
@@ -286,66 +286,141 @@ def _run(case):
         cls.append("ran-late-at-current-clock")
     if model.m.pending():
         cls.append("left-pending")
+    if model.m.max_not_advancing > 100:
+        cls.append("over-100-ties-in-one-start-spread-over-instants")
+    if case.get("_long"):
+        return OK(model.m.max_not_advancing > 100, cls)
     return OK(bool(model.log) and (tie or nested), cls)
+
+
+def _expand_long(long):
+    """Compact description of a long start() run -> ordinary command list."""
+    cmds, t = [], 0
+    forms = ("num", "int", "dt")
+    for gi, (gap, size, child) in enumerate(long["groups"]):
+        t += gap
+        for j in range(size):
+            spec = [["sched", "now", 0, None, []]] if (child and j == 0) else []
+            cmds.append(["sched", "aoff", t, forms[(gi + j) % 3], spec])
+        if long.get("split") and gi == long["split"]:
+            cmds.append(["start"])  # two start() runs; the second one begins with past-due and future items
+            t = 0
+    if long.get("sleep"):
+        cmds.append(["sleep", long["sleep"], "num"])  # the earliest groups become past-due
+    cmds.append(["start"])
+    return cmds
+
+
+def _run_long(case):
+    return _run({"kind": case["kind"], "init": case["init"], "cmds": _expand_long(case["long"]), "_long": True})
 
 
 # ---------------------------------------------------------------------------------------------------------------
 # strategy
 
-_rel_t = st.one_of(st.sampled_from([0, 0, 1, 1, 2, 3]), st.integers(-3, 9))
-_abs_t = st.one_of(st.integers(0, 12), st.integers(0, 40), st.sampled_from([99, 100, 101, 199, 200, 201, 999, 1000, 1001]))
-_off_t = st.one_of(st.sampled_from([0, 1, 2]), st.integers(-6, 10))
+# A history is decoded from a flat list of small integers (cheap to generate and to shrink: zeros decode to the
+# simplest choice, a shorter list to a shorter history).  The decoded, JSON-able command list is the case.
+_REL_T = [0, 1, 2, 0, 1, 3, -1, 5, 9, -3, 4, 7, 2, 6, 8, 1]
+_ABS_T = [0, 1, 2, 3, 5, 8, 4, 6, 7, 9, 10, 11, 12, 20, 33, 40, 99, 100, 101, 199, 200, 201, 999, 1000, 1001, 15, 25, 3, 2, 1, 0, 5]
+_OFF_T = [0, 1, 2, -1, 3, -2, 5, 10, -6, 4, 7, -3, 1, 2, 0, 8]
+_NOPS = [0, 1, 0, 2, 1, 3, 0, 2]
 
 
-def _sched_op(child):
-    return st.one_of(
-        st.tuples(st.just("sched"), st.just("now"), st.just(0), st.none(), child),
-        st.tuples(st.just("sched"), st.just("rel"), _rel_t, st.sampled_from(REL_FORMS), child),
-        st.tuples(st.just("sched"), st.just("abs"), _abs_t, st.sampled_from(ABS_FORMS), child),
-        st.tuples(st.just("sched"), st.just("aoff"), _off_t, st.sampled_from(ABS_FORMS), child),
-    ).map(list)
+class _Bytes:
+    def __init__(self, data):
+        self.data, self.i = data, 0
+
+    def more(self):
+        return self.i < len(self.data)
+
+    def take(self, table=None):
+        v = self.data[self.i] if self.i < len(self.data) else 0
+        self.i += 1
+        return v if table is None else table[v % len(table)]
 
 
-_cancel_op = st.tuples(st.just("cancel"), st.integers(0, 30)).map(list)
-_stop_op = st.just(["stop"])
+def _dec_sched(b, depth):
+    mode = b.take(["now", "rel", "abs", "aoff"])
+    if mode == "now":
+        t, form = 0, None
+    elif mode == "rel":
+        t, form = b.take(_REL_T), b.take(REL_FORMS)
+    elif mode == "abs":
+        t, form = b.take(_ABS_T), b.take(ABS_FORMS)
+    else:
+        t, form = b.take(_OFF_T), b.take(ABS_FORMS)
+    return ["sched", mode, t, form, _dec_spec(b, depth)]
 
 
-def _spec(depth):
-    if depth == 0:
-        return st.lists(st.one_of(_cancel_op, _cancel_op, _stop_op), max_size=1)
-    child = _spec(depth - 1)
-    op = st.one_of(_sched_op(child), _sched_op(child), _sched_op(child), _cancel_op, _cancel_op, _stop_op)
-    return st.one_of(st.just([]), st.lists(op, max_size=3))
+def _dec_spec(b, depth):
+    ops = []
+    for _ in range(b.take(_NOPS)):
+        k = b.take() % 6
+        if k < 3 and depth > 0:
+            ops.append(_dec_sched(b, depth - 1))
+        elif k < 5:
+            ops.append(["cancel", b.take() % 31])
+        else:
+            ops.append(["stop"])
+    return ops
 
 
-def _cmd():
-    spec = _spec(2)
-    sched = _sched_op(spec)
-    return st.one_of(
-        sched, sched, sched, sched, sched, sched,
-        _cancel_op,
-        st.tuples(st.just("advance_to"), _off_t, st.sampled_from(ABS_FORMS)).map(list),
-        st.tuples(st.just("advance_to"), st.integers(1, 30), st.sampled_from(ABS_FORMS)).map(list),
-        st.tuples(st.just("advance_by"), st.one_of(st.integers(-2, 12), st.integers(0, 4)), st.sampled_from(REL_FORMS)).map(list),
-        st.tuples(st.just("sleep"), st.integers(-2, 8), st.sampled_from(REL_FORMS)).map(list),
-        st.just(["start"]),
-        st.just(["start"]),
-        st.just(["stop"]),
-    )
+def _decode(kind, init, data, max_cmds):
+    b = _Bytes(data)
+    cmds = []
+    end = b.take() % 6
+    while b.more() and len(cmds) < max_cmds:
+        c = b.take() % 16
+        if c < 8:
+            cmds.append(_dec_sched(b, 2))
+        elif c == 8:
+            cmds.append(["cancel", b.take() % 31])
+        elif c in (9, 10):
+            cmds.append(["advance_to", b.take(_OFF_T) if c == 9 else 1 + b.take() % 30, b.take(ABS_FORMS)])
+        elif c == 11:
+            cmds.append(["advance_by", b.take([0, 1, 2, 3, 4, -1, 6, 12, -2, 8]), b.take(REL_FORMS)])
+        elif c == 12:
+            cmds.append(["sleep", b.take([0, 1, 2, -1, 3, 8, -2, 5]), b.take(REL_FORMS)])
+        elif c in (13, 14):
+            cmds.append(["start"])
+        else:
+            cmds.append(["stop"])
+    if end in (1, 2):
+        cmds.append(["start"])
+    elif end == 3:
+        cmds.append(["advance_to", 1 + b.take() % 60, b.take(ABS_FORMS)])
+    elif end == 4:
+        cmds += [["advance_by", 1 + b.take() % 20, b.take(REL_FORMS)], ["start"]]
+    if not cmds:
+        cmds = [["start"]]
+    return {"kind": kind, "init": init if kind == "hist" else 0, "cmds": cmds}
 
 
 def _cases(max_cmds):
+    return st.tuples(
+        st.sampled_from(["vts", "test", "hist"]),
+        st.sampled_from([0, 0, 5, 86_400_000]),
+        st.one_of(
+            st.lists(st.integers(0, 255), min_size=2, max_size=40),
+            st.lists(st.integers(0, 255), min_size=40, max_size=8 * max_cmds),
+            st.lists(st.integers(0, 255), min_size=4 * max_cmds, max_size=8 * max_cmds),
+        ),
+    ).map(lambda t: _decode(t[0], t[1], t[2], max_cmds))
+
+
+def _long_cases():
+    group = st.tuples(st.integers(1, 3), st.one_of(st.integers(1, 6), st.sampled_from([2, 3, 4])), st.booleans()).map(list)
+
     def build(kind):
         init = st.just(0) if kind != "hist" else st.sampled_from([0, 0, 5, 86_400_000])
-        end = st.one_of(
-            st.just([]),
-            st.just([["start"]]),
-            st.just([["start"]]),
-            st.tuples(st.just("advance_to"), st.integers(1, 60), st.sampled_from(ABS_FORMS)).map(lambda c: [list(c)]),
-            st.tuples(st.just("advance_by"), st.integers(1, 20), st.sampled_from(REL_FORMS)).map(lambda c: [list(c), ["start"]]),
+        long = st.fixed_dictionaries(
+            {
+                "groups": st.lists(group, min_size=30, max_size=90),
+                "sleep": st.sampled_from([0, 0, 0, 2, 5]),
+                "split": st.one_of(st.none(), st.none(), st.integers(1, 20)),
+            }
         )
-        cmds = st.tuples(st.lists(_cmd(), min_size=1, max_size=max_cmds), end).map(lambda t: t[0] + t[1])
-        return st.fixed_dictionaries({"kind": st.just(kind), "init": init, "cmds": cmds})
+        return st.fixed_dictionaries({"kind": st.just(kind), "init": init, "long": long})
 
     return st.sampled_from(["vts", "test", "hist"]).flatmap(build)
 
@@ -356,7 +431,14 @@ def checks(tier):
             "history",
             _run,
             strategy=_cases(25 if tier == "quick" else 60),
-            examples={"quick": 3000, "thorough": 16 * 30000},
-            shards={"quick": 4, "thorough": 16},
+            examples={"quick": 6000, "thorough": 16 * 12000},
+            shards={"quick": 6, "thorough": 16},
+        ),
+        Check(
+            "long_start",
+            _run_long,
+            strategy=_long_cases(),
+            examples={"quick": 240, "thorough": 16 * 500},
+            shards={"quick": 6, "thorough": 16},
         ),
     ]
